@@ -177,7 +177,9 @@ class VTS:
             for n, e in pend.items():
                 assert n not in self.comb_eq, f"{n} driven twice"; self.comb_eq[n] = e
         for clk, st in m.sync:
-            pend, mpend = {}, {}
+            # several always blocks of one clock (one per memory port) write the same memory: their non-blocking updates are composed in
+            # source order (colliding writes of different blocks are a race in IEEE 1364; callers exclude collisions)
+            pend, mpend = {}, dict(self.mem_next.get(clk, {}))
             saved = dict(self.env)
             self.exec(st, pend, mpend, None)
             self.env = saved
